@@ -73,6 +73,78 @@ func VP_C05_basic() {
 }
 
 //vp:property C05
+//vp:bounds Basic scheme, TWO requests in a row (fresh request identities, within a few seconds): user name and password of 0..2 symbolic bytes each time; the backend's verdict is arbitrary and independent per question
+//vp:assume r.BasicAuth stubbed (header parsing is net/http's); a digest, if the code computes one, is a deterministic collision-free function of its input
+//vp:reach second-passed second-refused
+func VP_C05_basic_twice() {
+	vpResetWeb()
+	h := &BasicAuthHandler{SocketAddress: "/tmp/sock", Timeout: 5}
+	var passed [2]bool
+	var asked [2]int
+	var users, passes [2]string
+	for i := 0; i < 2; i++ {
+		is := vpItoa(i)
+		vpBasicOK = true
+		users[i], passes[i] = vpString("user"+is, 2), vpString("pass"+is, 2)
+		vpBasicUser, vpBasicPass = users[i], passes[i]
+		vpAuthErr = nil
+		vpAuthRes = &auth.AuthResponse{Authenticated: vpBool("backend-says-authenticated-" + is)}
+		before := vpAuthCalls
+		var seen identity.Identity
+		next := func(w http.ResponseWriter, r *http.Request) {
+			passed[i] = true
+			seen = identity.FromRequestCtx(r)
+		}
+		h.BasicAuth(next)(vpNewRW(), vpRequest("RDG_OUT_DATA", http.Header{}, identity.NewUser()))
+		asked[i] = vpAuthCalls - before
+		if passed[i] {
+			vpAssert(seen != nil && seen.UserName() == users[i], "tunnel-user-is-the-presented-user")
+		}
+	}
+	if passed[1] {
+		vpReach("second-passed")
+		// the credentials of THIS request were confirmed: either the backend was asked about them now, or
+		// exactly these credentials were confirmed a moment ago
+		confirmedNow := asked[1] == 1 && vpAuthReqUser == users[1] && vpAuthReqPass == passes[1] && vpBool("backend-says-authenticated-1")
+		confirmedBefore := passed[0] && users[0] == users[1] && passes[0] == passes[1]
+		vpAssert(confirmedNow || confirmedBefore, "second-request-reaches-the-handler-only-with-credentials-the-backend-confirmed")
+	} else {
+		vpReach("second-refused")
+	}
+}
+
+//vp:property C05 C07
+//vp:bounds two users open a tunnel one after the other through the real middleware chain EnrichContext -> BasicAuth (backend confirms both; names of 1..2 symbolic bytes, different); the tunnel handler keeps the request's identity for the life of the tunnel, as protocol.Tunnel.User does for a legacy tunnel whose RDG_OUT_DATA handler has returned
+//vp:reach both
+func VP_C05_basic_two_tunnels() {
+	vpResetWeb()
+	sessionStore = vpNewStore()
+	h := &BasicAuthHandler{SocketAddress: "/tmp/sock", Timeout: 5}
+	var kept [2]identity.Identity
+	var names [2]string
+	for i := 0; i < 2; i++ {
+		is := vpItoa(i)
+		names[i] = vpString("user"+is, 2)
+		vpAssume(len(names[i]) >= 1)
+		vpBasicOK, vpBasicUser, vpBasicPass = true, names[i], "pw"
+		vpAuthErr, vpAuthRes = nil, &auth.AuthResponse{Authenticated: true}
+		next := func(w http.ResponseWriter, r *http.Request) { kept[i] = identity.FromRequestCtx(r) }
+		r := vpRequest("RDG_OUT_DATA", http.Header{}, nil)
+		r.RemoteAddr = "192.0.2." + is + ":4000"
+		EnrichContext(h.BasicAuth(next)).ServeHTTP(vpNewRW(), r)
+	}
+	vpAssume(names[0] != names[1])
+	if kept[0] == nil || kept[1] == nil {
+		return
+	}
+	vpReach("both")
+	vpAssert(kept[0].UserName() == names[0], "first-tunnels-user-is-still-the-user-the-backend-confirmed-for-it")
+	vpAssert(kept[1].UserName() == names[1], "second-tunnels-user-is-the-user-the-backend-confirmed-for-it")
+	a0, _ := kept[0].GetAttribute(identity.AttrClientIp).(string)
+	vpAssert(a0 == "192.0.2.0", "first-tunnels-client-address-is-still-its-own")
+}
+
+//vp:property C05
 //vp:set s 2 4
 //vp:bounds NTLM/Negotiate scheme: well-formed prefix + payload of <= s bytes; backend: unreachable / RPC error / challenge message / authenticated with user name <= s bytes / not authenticated
 //vp:reach passed challenge-relayed rejected
